@@ -2983,7 +2983,8 @@ make_task(struct ical_vevent_s *ve)
 			ve->t.timeout = ve->dur;
 			ve->t.vtod_typ = VTOD_TYP_TIMEOUT;
 		} else if (!echs_nul_instant_p(ve->due)) {
-			ve->t.due = ve->due;
+			/* the executor compares it with the clock */
+			ve->t.due = echs_instant_to_utc(ve->due);
 			ve->t.vtod_typ = VTOD_TYP_DUE;
 		}
 	} else if (!ve->rrul.nr && !ve->rdat.ndt) {
